@@ -1,0 +1,70 @@
+//go:build verif
+
+package mautil
+
+// Contracts for the deductive checks in /verif (comment-only; no code).
+// Property C20 (address helpers): nil entries are dropped, nothing else is.
+
+// CleanPeerAddrInfo: the ID is unchanged, no nil entry remains, every step
+// either keeps a non-nil entry or replaces a nil entry by the last entry and
+// shrinks the list by one (so the non-nil entries are preserved as a multiset).
+//@ func CleanPeerAddrInfo
+//@   property C20
+//@   modifies elems(target.Addrs)
+//@   ensures result.ID == target.ID
+//@   ensures len(result.Addrs) <= len(target.Addrs)
+//@   ensures forall(j, 0, len(result.Addrs), result.Addrs[j] != nil)
+//@   loop 1: invariant 0 <= i && i <= len(target.Addrs) && target.ID == old(target.ID)
+//@   loop 1: invariant suffix(target.Addrs[0:0], old(target.Addrs)[0:0], 0) && len(target.Addrs) <= len(old(target.Addrs))
+//@   loop 1: invariant forall(j, 0, i, target.Addrs[j] != nil)
+//@   loop 1: decreases len(target.Addrs) - i
+//@   loop 1: iteration ghost n0 := len(target.Addrs)
+//@   loop 1: iteration ghost i0 := i
+//@   loop 1: iteration ghost last0 := elemOrZero(target.Addrs, len(target.Addrs) - 1)
+//@   loop 1: iteration ghost cur0 := elemOrZero(target.Addrs, i)
+//@   loop 1: iteration ensures (cur0 != nil && i == i0 + 1 && len(target.Addrs) == n0 && target.Addrs[i0] == cur0) || (cur0 == nil && i == i0 && len(target.Addrs) == n0 - 1 && (i0 < n0 - 1 ==> target.Addrs[i0] == last0))
+
+// FindHTTPAddrs keeps exactly the addresses that contain an http or https component.
+//@ func FindHTTPAddrs$1
+//@   property C20
+//@   ghost ps := zero("[]multiaddr.Protocol")
+//@   at call Protocols#1: after ghost ps := result
+//@   ensures-local target == nil ==> !result
+//@   ensures-local target != nil ==> (result <==> exists(j, 0, len(ps), ps[j].Code == multiaddr.P_HTTP || ps[j].Code == multiaddr.P_HTTPS))
+//@   loop 1: invariant forall(j, 0, rangeindex + 1, !(ps[j].Code == multiaddr.P_HTTP || ps[j].Code == multiaddr.P_HTTPS))
+//@   loop 1: invariant target != nil && rangeindex < len(ps)
+
+//@ func FindHTTPAddrs
+//@   property C20
+//@   ensures-local count("call:FilterAddrs") == 1
+
+// FilterPublic's predicate: nil entries pass through (dropping them is
+// CleanPeerAddrInfo's job), an address without a first component is dropped,
+// IP-family addresses are kept iff public and not unspecified, DNS-family iff
+// the name is not localhost.
+//@ func FilterPublic$1
+//@   property C20
+//@   ghost pub := false
+//@   ghost unspec := false
+//@   ghost comp := zero("*multiaddr.Component")
+//@   at call SplitFirst#1: after ghost comp := result0
+//@   at call IsPublicAddr#1: after ghost pub := result
+//@   at call IsIPUnspecified#1: after ghost unspec := result
+//@   ensures-local target == nil ==> result
+//@   ensures-local target != nil && comp == nil ==> !result
+//@   ensures-local count("call:IsPublicAddr") == 1 ==> (result <==> (pub && (count("call:IsIPUnspecified") == 0 || !unspec)))
+//@   ensures-local count("call:IsPublicAddr") == 1 && pub ==> count("call:IsIPUnspecified") == 1
+
+//@ func FilterPublic
+//@   property C20
+//@   ensures len(result) == 0 ==> result == nil
+
+//@ func MultiaddrsEqual
+//@   property C20
+//@   ensures len(ma1) != len(ma2) ==> !result
+//@   ensures len(ma1) == len(ma2) && len(ma1) == 0 ==> result
+
+//@ func StringsToMultiaddrs
+//@   property C20
+//@   ensures len(addrs) == 0 ==> result0 == nil && result1 == nil
+//@   ensures len(result0) <= len(addrs)
